@@ -55,6 +55,7 @@ const (
 	evHeadSkip   // SkipBody stored true on the HEAD branch
 	evHeadTested // IsHead() consulted after the handler
 	evIsHead
+	evDirty // a response sits in the connection writer and no Flush followed yet (survives iterations)
 	evReaderBit0
 )
 
@@ -129,6 +130,7 @@ var serveFamilies = []*serveFamily{
 	{name: "timeout", rules: []string{"C16|R1", "C16|R2", "C16|R3", "C16|R5", "C10|R3"}, mask: evTimeoutT | evFreshCtx | evCopied | evHandler | evCtxSwapped | evTimeoutKnown},
 	{name: "hijack", rules: []string{"C17|R1", "C17|R3", "C17|R4"}, mask: evWrote | evFlushedAfterWrite | evHijackGo | evHijackNoResp},
 	{name: "head", rules: []string{"C03|R4"}, mask: evHandler | evHeadTested | evIsHead | evHeadSkip},
+	{name: "flush", rules: []string{"C15|R5"}, mask: evDirty},
 }
 
 func (p *Prog) serveLoop(prop string) *serveResult {
@@ -441,6 +443,46 @@ func (p *Prog) serveLoop(prop string) *serveResult {
 		return ok && ctxAlloc != nil && st.Addr == ssa.Value(ctxAlloc)
 	}
 	var lastAcquire ssa.Value
+	var lastWrite ssa.Value
+	fRelWriter := p.Func("releaseWriter")
+	// helpers that flush the writer on every path (the error response writer)
+	flushesAlways := map[*ssa.Function]bool{}
+	for _, g := range p.funcsIn("") {
+		if g == fn || len(g.Blocks) == 0 {
+			continue
+		}
+		hasFlush := false
+		isFlush := func(i ssa.Instruction) bool {
+			c, ok := i.(ssa.CallInstruction)
+			if !ok {
+				return false
+			}
+			f := c.Common().StaticCallee()
+			return f != nil && f.Name() == "Flush" && recvTypeName(f) == "Writer" && f.Pkg != nil && f.Pkg.Pkg.Path() == "bufio"
+		}
+		allCalls(g, func(b *ssa.BasicBlock, c ssa.CallInstruction) {
+			if isFlush(c) {
+				hasFlush = true
+			}
+		})
+		if !hasFlush {
+			continue
+		}
+		if hit, _ := reachAvoiding(g, nil, isReturn, isFlush, nil); hit == nil {
+			flushesAlways[g] = true
+		}
+	}
+	dirtyCheck := func(xx *Explorer, st *State, pos token.Pos, what string) {
+		if cur == nil || cur.name != "flush" {
+			return
+		}
+		bad := st.Has(evDirty)
+		if bad && lastWrite != nil && xx.Eval(st, lastWrite) == True {
+			bad = false // the write itself failed: the connection is broken
+		}
+		check("C15|R5|a written response is flushed before the connection writer is dropped on a graceful end", !bad, st, pos,
+			what+" while a response written earlier is still buffered and no Flush followed: that response is never delivered")
+	}
 	var staleUse func(xx *Explorer, st *State, in ssa.Instruction)
 	stateOf := func(st *State) int8 { return st.N[0] } // 0 start, 1 active, 2 idle, 3 terminal
 	hooks := Hooks{
@@ -638,6 +680,8 @@ func (p *Prog) serveLoop(prop string) *serveResult {
 				check("C14|R1|response written in StateActive", stateOf(st) == 1, st, in.Pos(), "response written while the reported state is not Active")
 				setb(st, evWrote)
 				st.Clear(evFlushedAfterWrite)
+				setb(st, evDirty)
+				lastWrite = c.Value()
 			case isCallTo(c, fRelStream):
 				if inL[b] {
 					check("C02|R2|request stream is only dropped after it was found fully read", st.Has(evStreamChecked), st, in.Pos(),
@@ -689,6 +733,14 @@ func (p *Prog) serveLoop(prop string) *serveResult {
 						if st.Has(evWrote) {
 							setb(st, evFlushedAfterWrite)
 						}
+						st.Clear(evDirty)
+					case f == fRelWriter:
+						// after the loop the verdict is taken at the return, where the result tells a graceful end from a failure
+						if inL[b] {
+							dirtyCheck(xx, st, in.Pos(), "the connection writer is given back to its pool")
+						}
+					case flushesAlways[f]:
+						st.Clear(evDirty)
 					case f.Name() == "Peek" && recvTypeName(f) == "Reader":
 						setb(st, evByteOK)
 					}
@@ -758,6 +810,25 @@ func (p *Prog) serveLoop(prop string) *serveResult {
 					nonNil := tk == (bo.Op == token.NEQ)
 					if nonNil {
 						setb(st, evTimeoutT)
+					}
+				}
+			}
+			// an empty or absent connection writer holds no pending response
+			if bo, ok := v.(*ssa.BinOp); ok {
+				if c, isCall := bo.X.(*ssa.Call); isCall && bo.Op == token.GTR {
+					if f := c.Call.StaticCallee(); f != nil && f.Name() == "Buffered" && recvTypeName(f) == "Writer" {
+						if k, isK := constInt(bo.Y); isK && k == 0 && !tk {
+							st.Clear(evDirty)
+						}
+					}
+				}
+				if (bo.Op == token.EQL || bo.Op == token.NEQ) && (isNilConst(bo.Y) || isNilConst(bo.X)) {
+					o := bo.X
+					if isNilConst(bo.X) {
+						o = bo.Y
+					}
+					if strings.HasSuffix(o.Type().String(), "bufio.Writer") && tk == (bo.Op == token.EQL) {
+						st.Clear(evDirty)
 					}
 				}
 			}
@@ -835,6 +906,10 @@ func (p *Prog) serveLoop(prop string) *serveResult {
 				return
 			}
 			rr := returnResults(ret)
+			if len(rr) == 1 && xx.Eval(st, rr[0]) == False {
+				// a nil result is the graceful end of the connection
+				dirtyCheck(xx, st, ret.Pos(), "the serve function returns nil")
+			}
 			if st.Has(evHijackGo) {
 				check("C17|R3|no server use of the connection or the ctx after the hijack hand-off", true, st, ret.Pos(), "")
 				ok := len(rr) == 1 && (globalOf(rr[0]) == "errHijacked" || xx.resolvesToGlobal(st, rr[0], "errHijacked"))
@@ -858,6 +933,15 @@ func (p *Prog) serveLoop(prop string) *serveResult {
 		}
 		if closeCond != nil && (fam.name == "body" || fam.name == "close") {
 			x.Track(closeCond)
+		}
+		if fam.name == "flush" {
+			for _, b := range fn.Blocks {
+				for _, in := range b.Instrs {
+					if cv, ok := in.(*ssa.Call); ok && isCallTo(cv, fWriteResp) {
+						x.Track(cv)
+					}
+				}
+			}
 		}
 		// byte sources: error results of Peek / acquireByteReader
 		for _, b := range fn.Blocks {
@@ -1011,7 +1095,8 @@ func (p *Prog) serveLoop(prop string) *serveResult {
 			}
 		}
 		x.Filter = noConfigFilter
-		if fam.carried {
+		if fam.carried || fam.name == "flush" {
+			// two tests of the same configuration field (s.ReduceMemoryUsage) must agree within one iteration
 			x.Filter = noIntFilter
 			trackConfigNilTests(x)
 		}
